@@ -87,6 +87,41 @@ func checkC08(c *Ctx, r *Report) {
 	r.rule("C08.R4", "truncateRecordBatchToTimestamp patches exactly {8:12,23:27,35:43,57:61,17:21}; the CRC patch is last and covers truncated[21:] of the same slice", 2)
 	r.rule("C08.R5", "the batch scanner reports 'finished' only after a record (or a batch's first timestamp) later than the cutoff was seen", 1)
 	checkC08Done(m, r)
+	r.rule("C08.R6", "the last candidate segment is always rebuilt from the scan: every plan buildRestorePlan returns carries bytes produced by BuildSegment over collectRecoverableBatches' result, never the source segment's own bytes", 2)
+	if bp := needFn(m, r, "C08.R6", pkgStorage, "buildRestorePlan"); bp != nil {
+		n := 0
+		for _, fld := range []string{"segmentBytes", "indexBytes"} {
+			for _, st := range storesToField(bp, "storage.segmentRestorePlan", fld) {
+				n++
+				key := fmt.Sprintf("buildRestorePlan: plan.%s #%d comes from the rebuilt artifact", fld, n)
+				fromBuild, fromParam, viaScan := false, "", false
+				backSlice(st.Val, false, func(v ssa.Value) {
+					switch x := v.(type) {
+					case *ssa.Parameter:
+						fromParam = x.Name()
+					case *ssa.Call:
+						if nameMatches(calleeName(&x.Call), pkgStorage+".BuildSegment") {
+							fromBuild = true
+							if len(x.Call.Args) >= 2 && anyOrigin(x.Call.Args[1], vmCall(pkgStorage+".collectRecoverableBatches")) {
+								viaScan = true
+							}
+						}
+					}
+				})
+				switch {
+				case fromParam != "":
+					r.viol("C08.R6", key, m.Pos(st.Pos()), "the plan reuses the source object ("+fromParam+") without the cut at the first record later than the cutoff")
+				case !fromBuild || !viaScan:
+					r.viol("C08.R6", key, m.Pos(st.Pos()), "value is "+describe(st.Val)+", not a field of BuildSegment(collectRecoverableBatches(…))")
+				default:
+					r.ok("C08.R6", key, m.Pos(st.Pos()), "")
+				}
+			}
+		}
+		if n == 0 {
+			r.unresolved("C08.R6", "buildRestorePlan: plan bytes", "no store to segmentRestorePlan.segmentBytes / indexBytes")
+		}
+	}
 
 	fn := needFn(m, r, "C08.R1", pkgStorage, "RecoverTopicToTimestamp")
 	if fn != nil {
